@@ -10,27 +10,27 @@ COMMON_PHASES = ("closure of the 3-key universe to a fixpoint (5 hasher kinds x 
                  "(tombstone families, collision chains, exactly full tables, grow/shrink cycles, 64-4096 entry caches), and the ladder "
                  "(every fill level n up to 300 / 1200, 1-2 steps); plus, for all properties but C08/C09/C16/C18, every operation sequence of <= 3 "
                  "(thorough: 4) of ~60 operations (incl. clone_from into four kinds of target, reservations that must fail and a forgotten drain) from 4 prefixes x "
-                 "{unbounded, exactly full} on 9 other instantiations of K, V, S (plain data with varying size estimate and non-bitwise Clone, "
-                 "String/&str, zero-sized key, zero-sized value, 32-byte aligned value, 200-byte inline value, default hasher, drop glue on one side only) with "
-                 "their own fill ladder up to 40 / 300; states that an operation leaves with a changed cache object although the hook's dump is unchanged "
+                 "{unbounded, exactly full} on 10 other instantiations of K, V, S (plain data with varying size estimate and non-bitwise Clone, "
+                 "String/&str, PathBuf looked up through another spelling of the same &Path, zero-sized key, zero-sized value, 32-byte aligned value, 200-byte inline value, default hasher, drop glue on one side only) with "
+                 "their own fill ladder up to 40 / 300 and 372 periodic schedules of 70 000 / 300 000 steps; states that an operation leaves with a changed cache object although the hook's dump is unchanged "
                  "(hidden state) are re-explored as unmerged roots")
 
 LRUMC_NOTE = ("Exhaustive within the stated alphabet, universes, seed list and depth bounds (fixpoint for the closures); every state is "
               "reached by replaying its witness history on the real code and must reproduce its canonical key. Trusted: the reference "
               "semantics (DESIGN 3.10), the canonicalisation argument (3.4), rustc; hashbrown is executed, not modelled. Not covered: "
-              "key/value/hasher types other than the instrumented ones and the 9 + 4 + 1 further instantiations (instvar, typevar, strmap), hash values "
+              "key/value/hasher types other than the instrumented ones and the 10 + 4 + 1 further instantiations (instvar, typevar, strmap), hash values "
               "outside the five hasher kinds, histories that need more than 4 distinct keys and are not within the depth bound of a seed.")
 
 MC = "explicit-state model checking of the real code (parallel BFS to a fixpoint over canonical concrete states, replay-validated witness histories, step-local and history-level reference oracle)"
 
 CHECKS = {
-    "C01": ("model_checking", "lrumc", "invariant current_size() <= max_size() and Σ entry_size <= max_size() after every transition of: " + COMMON_PHASES, LRUMC_NOTE, MC),
+    "C01": ("model_checking", "lrumc", "invariant current_size() <= max_size() and Σ entry_size <= max_size() after every transition of: " + COMMON_PHASES + "; and after a caught panic before / after the mutate closure changed the value or in the retain predicate, in every state of the closure", LRUMC_NOTE, MC),
     "C02": ("model_checking", "lrumc", "invariant current_size() == Σ entry_size(k,v) over iter(), len() == count, empty <=> 0 in every reached state of: " + COMMON_PHASES + "; a non-terminating eviction loop is reported through the hang monitor", LRUMC_NOTE, MC),
     "C03": ("model_checking", "lrumc", "every transition: set and drop order of the entries that left unasked == the minimal LRU prefix, both by the order the cache reported before the step and by the order of last access the reference accumulated over the whole history; over: " + COMMON_PHASES, LRUMC_NOTE, MC),
     "C04": ("model_checking", "lrumc", "every transition: return value (instances by identity) and contents equal the sequential-map reference; every state: peek / peek_entry / contains in owned and borrowed form agree with the traversal by pointer identity; plus a str-keyed instantiation whose keys are overlapping slices of one buffer looked up through aliasing and fresh &str; over: " + COMMON_PHASES + "; thorough adds a stateright cross-check of the state count", LRUMC_NOTE, MC),
     "C05": ("model_checking", "lrumc", "every transition: recency order equals the reference's order of last access; every state: peek_lru / peek_mru / keys / values / reverse iteration agree; over: " + COMMON_PHASES + "; and the relative order of the remaining entries after a caught panic at every callback index (instantiation variants)", LRUMC_NOTE, MC),
     "C06": ("model_checking", "lrumc", "identity registry: conservation after every transition (every live instance is held by the cache or by the caller), every state x {drop, clear, drain, into_iter, into_keys, into_values} x every next/next_back pattern and prefix ends with each instance dropped exactly once; plus the same life-cycle sweep with only the key or only the value having drop glue; when an operation leaves the structure incoherent the drop of the cache is tried out in a forked child process and judged by the registry there; thorough adds an AddressSanitizer re-run", LRUMC_NOTE, MC),
-    "C07": ("model_checking", "lrumc", "pointer-validating walker on the hook's dump after every transition (before any API call touches the post state), iter item i lives in list node i, mirror traversal and lookup identity in every state; seed scripts validated step by step; 256 KiB worker stacks; crashes attributed through markers; over: " + COMMON_PHASES + "; thorough adds an AddressSanitizer re-run and a stateright cross-check", LRUMC_NOTE, MC),
+    "C07": ("model_checking", "lrumc", "pointer-validating walker on the hook's dump after every transition (before any API call touches the post state), iter item i lives in list node i, mirror traversal and lookup identity in every state; what an operation frees is poisoned and held back until the operation is over and must still be all poison then (write after free); seed scripts validated step by step; 256 KiB worker stacks; crashes attributed through markers; over: " + COMMON_PHASES + "; thorough adds an AddressSanitizer re-run and a stateright cross-check", LRUMC_NOTE, MC),
     "C10": ("model_checking", "lrumc", "every insert / try_insert transition: classification in the stated order, error fields, returned instances by identity (all six accessors), complete canonical dump (incl. control bytes and capacity) unchanged on failure, no eviction by a fitting try_insert; over: " + COMMON_PHASES, LRUMC_NOTE, MC),
     "C11": ("model_checking", "lrumc", "every mutate transition (shrink / equal / grow-fits / grow-evict-1 / grow-evict-2+ / overflow x position lru/middle/mru/only): closure call log, forwarded token, re-accounting (on the instantiation variants the mutated entry is removed afterwards and must give back exactly its accounted size), minimal eviction sparing the mutated entry, overflow payload; over: " + COMMON_PHASES, LRUMC_NOTE, MC),
     "C12": ("model_checking", "lrumc", "every state x 7 iterator kinds x every next/next_back sequence of length len+3 (structured family F^a B^b, B^b F^a, alternation for lists longer than 8) and every prefix + drop for the owning kinds; post-drain state identical however much was consumed; plus type variants", LRUMC_NOTE, MC),
@@ -41,7 +41,7 @@ CHECKS = {
     "C17": ("fault_enumeration", "lrumc", "every reachable state x every iterator kind x every next/next_back prefix followed by mem::forget, then drop of what was yielded, walker + registry + lookups on the cache, continuation and drop; plus the type-variant sweep with a forgotten drain", "Deviation bound: one leaked iterator per execution. " + LRUMC_NOTE, "deviation-bounded fault enumeration on the real code on top of the explicit-state closure (iterator leaked after every prefix)"),
     "C19": ("model_checking", "lrumc", "every reached state x every &self operation x every key (owned and borrowed form): (a) hook dump and raw bytes of struct, seal and table identical before/after; (b) MMU write trap: the state is rebuilt inside an mmap arena, the arena is mprotect'ed read-only while the operations run, a SIGSEGV handler records any write into memory the cache owns (catches idempotent and temporary writes)", "No store to the cache's memory by any &self operation in any explored state; this is what rules out data races between shared-reference operations, so no thread schedules are explored (the crate has no synchronisation to schedule around). " + LRUMC_NOTE, MC + " with an mprotect write trap as monitor"),
     "C20": ("model_checking", "lrumc", "Hash::hash invocation count (owned and borrowed key forms) per operation against 2 + departed (+ len for table-rebuilding operations), 0 for traversals / clear / drain / peek_lru / peek_mru, on every transition and every read-only operation, cache sizes 0 ... 4096", LRUMC_NOTE, MC),
-    "C08": ("model_checking", "sizemc", "every type expression over 33 constructors x 12 leaves to one constructor level, two / three levels over the override-bearing constructors (quick: 862 types; thorough: + 11 361 types to depth 3-4), every instance shape (length x spare capacity x child choice x Option/Result variants x poisoned locks), 22 helper x iterator-adaptor combinations against element-wise sums; totality ladder of 1e3 / 1e5 / 2^20 elements on a 256 KiB stack in a dev build in child processes", "Exhaustive over the generated catalogue and the stated instance caps; element counts beyond 2^20 and types outside the catalogue are not covered. Trusted: the one-line-per-constructor structural reference.", "bounded-exhaustive enumeration of inputs (type nestings x instance shapes x iterator adaptors) executed on the real code against a structural reference"),
+    "C08": ("model_checking", "sizemc", "every type expression over 33 constructors x 12 leaves to one constructor level, two / three levels over the override-bearing constructors (quick: 1153 types incl. two user-defined element types that rely on the default bulk helpers; thorough: + 4 414 types to depth 3-4), every instance shape (length x spare capacity x child choice x Option/Result variants x poisoned locks), 22 helper x iterator-adaptor combinations against element-wise sums; totality ladder of 1e3 / 1e5 / 2^20 elements on a 256 KiB stack in a dev build in child processes", "Exhaustive over the generated catalogue and the stated instance caps; element counts beyond 2^20 and types outside the catalogue are not covered. Trusted: the one-line-per-constructor structural reference.", "bounded-exhaustive enumeration of inputs (type nestings x instance shapes x iterator adaptors) executed on the real code against a structural reference"),
     "C09": ("model_checking", "sizemc", "every catalogue instance plus every build script of <= 2 (quick) / 3 (thorough) steps from 4 starts over {push, extend, reserve, reserve_exact, shrink_to_fit, shrink_to, truncate, clear} for String, OsString, PathBuf, Vec<T>, BinaryHeap<T> (12 element types), bare and inside 10 wrappers: heap_size == bytes held from a counting global allocator (<= and >= formula for HashMap / HashSet)", "Exhaustive over the script alphabet and depth: every reachable (len, capacity) relation under those scripts. Trusted: the counting allocator sees every allocation of the building thread.", "explicit enumeration of all build scripts to a depth (state = (len, capacity) relation) with the process allocator as oracle"),
     "C18": ("exploration", "probes", "complete {Send+Sync, Send-only, Sync-only, neither}^3 x {Send, Sync} lattice (128 programs), generic bound probes, 72 negative iterator programs (none of the 7 iterator types may be Send / Sync with a witness in K, V or S that would keep the cache itself from being sent / shared), 17 reference / iterator-returning API expressions x 7 conflicting uses + conflict-free twins (368 programs): rustc accept/reject and error code vs. the expectation computed from the property's predicate", "The quantifier is over programs; the enumeration over the stated program space is exhaustive, each verdict is rustc's (trusted). There are no executions to explore for a compile-time property; not a proof about all Rust programs.", "exhaustive enumeration of a finite program space with the compiler as accept/reject oracle"),
 }
